@@ -315,8 +315,131 @@ def _parse_path(ctx: Ctx) -> None:
                   message="tracks / messages of the file would be missing, repeated, reordered or only iterable once", file=f2.file, node=f2.node)
 
 
+def _is_none_test(t: ast.AST, name: str):
+    """True if `t` holds exactly when `name` is None, False if exactly when it is not None, else None."""
+    if isinstance(t, ast.Compare) and len(t.ops) == 1 and isinstance(t.left, ast.Name) and t.left.id == name \
+            and isinstance(t.comparators[0], ast.Constant) and t.comparators[0].value is None:
+        if isinstance(t.ops[0], (ast.Is, ast.Eq)):
+            return True
+        if isinstance(t.ops[0], (ast.IsNot, ast.NotEq)):
+            return False
+    return None
+
+
+def _entry(ctx: Ctx) -> None:
+    """ENTRY: the two short routines every load goes through.  `MidiFile.open` parses the named file into an object created by
+    this very call, on every call; `Sequence.sequences_load` opens the file exactly when no parsed file was handed in, fills a
+    missing grouping with one group per track (in file order) and a missing meta list with every track, and returns what
+    `convert` produced for exactly these arguments."""
+    from ..astutil import path_conditions, early_exits_before
+    p = ctx.p
+    q = "MidiFile.open"
+    fo = p.functions.get(q)
+    if fo is None:
+        ctx.undetermined("ENTRY", f"{q}", "routine not found: not judged")
+    else:
+        ctx.analysed(fo)
+        rets = [r for r in walk_local(fo.node) if isinstance(r, ast.Return)]
+        rv = rets[0].value.id if len(rets) == 1 and isinstance(rets[0].value, ast.Name) else None
+        defs = [a for a in walk_local(fo.node) if isinstance(a, ast.Assign) and any(isinstance(t, ast.Name) and t.id == rv for t in a.targets)] if rv else []
+        fresh = len(defs) == 1 and isinstance(defs[0].value, ast.Call) and isinstance(defs[0].value.func, ast.Name) and defs[0].value.func.id == "MidiFile" \
+            and not defs[0].value.args and not defs[0].value.keywords and not path_conditions(defs[0])
+        ctx.check(fresh, "ENTRY", f"{q}: returns an object created by this call", function=q,
+                  construct="open can return a file object that was not created (and parsed) by this call",
+                  message=f"definitions of the result: {[short(d, 60) for d in defs]}: a result kept from an earlier call does not show what the file holds now",
+                  file=fo.file, node=defs[0] if defs else fo.node)
+        parses = [c for c in walk_local(fo.node) if isinstance(c, ast.Call) and call_method(c)[1] == "parse_mido" and isinstance(call_method(c)[0], ast.Name)
+                  and call_method(c)[0].id == rv]
+        okp = len(parses) == 1 and not path_conditions(parses[0]) and not early_exits_before(fo.node, parses[0])
+        ctx.check(okp, "ENTRY", f"{q}: the file is parsed into the result on every call", function=q,
+                  construct="open does not parse the file on every call",
+                  message=f"parse calls {len(parses)}, conditions {[short(t, 50) for c in parses for t, _ in path_conditions(c)]}", file=fo.file,
+                  node=parses[0] if parses else fo.node)
+        if parses:
+            a0 = parses[0].args[0] if parses[0].args else None
+            srcs = {n.id for n in ast.walk(a0) if isinstance(n, ast.Name)} if a0 is not None else set()
+            # the argument (directly or through one local) is mido.MidiFile(<the file name parameter>)
+            ctor = [c for c in walk_local(fo.node) if isinstance(c, ast.Call) and src(c.func) == "mido.MidiFile"]
+            okc = len(ctor) == 1 and ctor[0].args and isinstance(ctor[0].args[0], ast.Name) and ctor[0].args[0].id == fo.params[0] \
+                and (ctor[0] is a0 or any(isinstance(a, ast.Assign) and a.value is ctor[0] and isinstance(a.targets[0], ast.Name) and a.targets[0].id in srcs
+                                          for a in walk_local(fo.node)))
+            ctx.check(okc, "ENTRY", f"{q}: what is parsed is the file named by the argument", function=q,
+                      construct="open parses something other than the file named by its argument", message=short(parses[0], 80), file=fo.file, node=parses[0])
+    q = "Sequence.sequences_load"
+    fl = p.functions.get(q)
+    if fl is None:
+        ctx.undetermined("ENTRY", f"{q}", "routine not found: not judged")
+        return
+    ctx.analysed(fl)
+    pr = fl.params
+    path_p, file_p = pr[0], pr[1]
+    opens = [c for c in walk_local(fl.node) if isinstance(c, ast.Call) and src(c.func) == "MidiFile.open"]
+    oko = len(opens) == 1 and opens[0].args and isinstance(opens[0].args[0], ast.Name) and opens[0].args[0].id == path_p
+    if oko:
+        st = next((a for a in ancestors(opens[0]) if isinstance(a, ast.Assign)), None)
+        pcs = path_conditions(st) if st is not None else []
+        oko = st is not None and isinstance(st.targets[0], ast.Name) and st.targets[0].id == file_p and len(pcs) == 1 \
+            and _is_none_test(pcs[0][0], file_p) is pcs[0][1]
+    ctx.check(oko, "ENTRY", f"{q}: the file is opened exactly when no parsed file was handed in", function=q,
+              construct="sequences_load does not open the named file exactly when `midi_file` is None",
+              message=f"{[short(c, 60) for c in opens]}", file=fl.file, node=opens[0] if opens else fl.node)
+    conv = [c for c in walk_local(fl.node) if isinstance(c, ast.Call) and call_method(c)[1] == "convert"]
+    okc = len(conv) == 1 and isinstance(call_method(conv[0])[0], ast.Name) and call_method(conv[0])[0].id == file_p and not path_conditions(conv[0])
+    if okc:
+        c = conv[0]
+        got = [src(a) for a in c.args] + [f"{k.arg}={src(k.value)}" for k in c.keywords]
+        want_pos = [pr[2], pr[3]]
+        flat = {**{i: src(a) for i, a in enumerate(c.args)}, **{k.arg: src(k.value) for k in c.keywords}}
+        cv = p.functions.get("MidiFile.convert")
+        names = cv.params[1:] if cv is not None else ["track_indices", "meta_track_indices", "meta_track_index"]
+        bound = {}
+        for i, nme in enumerate(names):
+            if i in flat:
+                bound[nme] = flat[i]
+            elif nme in flat:
+                bound[nme] = flat[nme]
+        okc = [bound.get(n_) for n_ in names[:3]] == [pr[2], pr[3], pr[4]]
+        rets = [r for r in walk_local(fl.node) if isinstance(r, ast.Return)]
+        res = next((a.targets[0].id for a in walk_local(fl.node) if isinstance(a, ast.Assign) and a.value is c and isinstance(a.targets[0], ast.Name)), None)
+        okr = len(rets) == 1 and (rets[0].value is c or (isinstance(rets[0].value, ast.Name) and rets[0].value.id == res))
+        ctx.check(okc and okr, "ENTRY", f"{q}: returns convert(groups, meta tracks, meta target) unchanged ({got})", function=q,
+                  construct="sequences_load does not hand its three selections to convert in their places and return the result",
+                  message=f"bound {bound}, returned directly {okr}", file=fl.file, node=c)
+    else:
+        ctx.check(False, "ENTRY", f"{q}: one unconditional convert call on the parsed file", function=q,
+                  construct="sequences_load does not convert the parsed file exactly once, unconditionally", message=f"{[short(c, 60) for c in conv]}",
+                  file=fl.file, node=conv[0] if conv else fl.node)
+    # defaults of the two selections
+    for sel, per_track in ((pr[2], "[i]"), (pr[3], "i")):
+        defs = [a for a in walk_local(fl.node) if isinstance(a, ast.Assign) and isinstance(a.targets[0], ast.Name) and a.targets[0].id == sel]
+        ok = len(defs) == 1
+        why = f"{[short(d, 70) for d in defs]}"
+        if ok:
+            d = defs[0]
+            pcs = path_conditions(d)
+            ok = len(pcs) == 1 and _is_none_test(pcs[0][0], sel) is pcs[0][1]
+            v = d.value
+            if ok and isinstance(v, ast.ListComp) and len(v.generators) == 1:
+                g = v.generators[0]
+                it = src(g.iter)
+                idx = None
+                if it == f"enumerate({file_p}.tracks)" and isinstance(g.target, ast.Tuple) and isinstance(g.target.elts[0], ast.Name):
+                    idx = g.target.elts[0].id
+                elif it == f"range(len({file_p}.tracks))" and isinstance(g.target, ast.Name):
+                    idx = g.target.id
+                ok = idx is not None and src(v.elt) == per_track.replace("i", idx) and not g.ifs
+            elif ok and per_track == "i" and src(v) == f"list(range(len({file_p}.tracks)))":
+                ok = True
+            elif ok:
+                ctx.undetermined("ENTRY", f"{q}: default of `{sel}`", "not a comprehension over the file's tracks: not judged")
+                continue
+        ctx.check(ok, "ENTRY", f"{q}: a missing `{sel}` becomes every track of the file, in file order" + (", one group each" if per_track == "[i]" else ""), function=q,
+                  construct=f"default of `{sel}` is not `every track, in order`", message=why, file=fl.file, node=defs[0] if defs else fl.node)
+
+
 def check(ctx: Ctx) -> None:
     _main_check(ctx)
     _parse_path(ctx)
+    _entry(ctx)
     from .common import view_deps
     view_deps(ctx)
